@@ -276,6 +276,20 @@ func genCLICase(c *core.Ctx, legacy bool) (string, []cliFile) {
 			files = append(files, cliFile{"missing", ""})
 		case k == 4:
 			files = append(files, cliFile{"directory", ""})
+		case k == 8 || k == 9:
+			// operations whose outcome depends on the document being re-read between files: the empty
+			// reference token "/" is resolved against the text that very Apply call was given, and a
+			// root replaced by null / a scalar cannot be patched any further
+			files = append(files, cliFile{"odd", []string{
+				`[{"op":"copy","from":"/","path":"/cp"}]`,
+				`[{"op":"test","path":"/","value":{}}]`,
+				`[{"op":"test","path":"/","value":` + doc + `}]`,
+				`[{"op":"replace","path":"","value":null}]`,
+				`[{"op":"add","path":"","value":[]}]`,
+				`[{"op":"add","path":"/-","value":7}]`,
+				`[{"op":"add","path":"/first","value":1},{"op":"copy","from":"/","path":"/snapshot"}]`,
+				`[{"op":"move","from":"/","path":"/mv"}]`,
+			}[c.R.Intn(8)]})
 		case k == 7:
 			// a patch without operations: still validates and re-encodes the document
 			files = append(files, cliFile{"valid", []string{"[]", "[ ]", " []\n", "[\n]"}[c.R.Intn(4)]})
